@@ -14,7 +14,9 @@ RULE = (
     "and data (.quad sym), symbolicExpressionSizes, comments and CFI directives keyed by block and by interval; per "
     "case the multiset of (table, section position, value) after apply() is compared with the image of the original "
     "multiset under the listing's byte map plus the patch's own expressions at patch position + offset; nothing may be "
-    "keyed outside its element or by an element that left the module; no symbol name may be duplicated"
+    "keyed outside its element or by an element that left the module; no symbol name may be duplicated; plus, for "
+    "ARM64, MIPS32, IA32 and x86-64 Intel syntax, patches whose operand carries an addend and a target-specific "
+    "variant (:lo12:, :got_lo12:, %hi, %lo, %got, @GOTPCREL) inserted by a real rewrite and judged against the text"
 )
 ASSUMPTIONS = [
     "annotation values are compared as strings (symbol names, addends, attribute lists, directive tuples)",
@@ -23,9 +25,92 @@ ASSUMPTIONS = [
 TRUSTED = ["harness/emodify.py, harness/irdump.py"]
 
 
+# patches whose one symbolic operand carries a target-specific variant: (text, symbol, addend, attribute names)
+ISA_PATCHES = {
+    "arm64-elf": [
+        ("add x1, x0, :lo12:table+8", "table", 8, ["LO12"]), ("add x1, x0, :lo12:table", "table", 0, ["LO12"]),
+        ("ldr x2, [x0, :lo12:table+16]", "table", 16, ["LO12"]), ("ldr x0, [x0, :got_lo12:table]", "table", 0, ["GOT", "LO12"]),
+        ("adrp x0, table", "table", 0, []), ("adrp x0, table+4096", "table", 4096, []), ("bl func", "func", 0, []),
+        ("ldr x1, table+8", "table", 8, []),
+    ],
+    "mips32-elf": [
+        ("lui $8, %hi(table+8)", "table", 8, ["HI"]), ("lui $8, %hi(table)", "table", 0, ["HI"]),
+        ("addiu $8, $8, %lo(table+8)", "table", 8, ["LO"]), ("addiu $8, $8, %lo(table)", "table", 0, ["LO"]),
+        ("lw $8, %got(table)($28)", "table", 0, ["GOT"]),
+    ],
+    "ia32-att-pe": [("movl $table+4, %eax", "table", 4, []), ("movl table, %eax", "table", 0, []), ("pushl $table", "table", 0, [])],
+    "x64-intel-elf": [("lea rax, [rip + table + 8]", "table", 8, []), ("mov dword ptr [rip + table + 4], 7", "table", 4, []),
+                      ("mov rax, qword ptr [rip + table@GOTPCREL]", "table", 0, ["GOT", "PCREL"])],
+}
+
+
+def gen_isa(rng):
+    cfg = rng.choice(list(ISA_PATCHES))
+    n = rng.randint(1, 4)
+    return {"isa_case": True, "cfg": cfg, "nops": n, "at": rng.randint(0, n), "patch": rng.randrange(len(ISA_PATCHES[cfg])),
+            "second": rng.randrange(len(ISA_PATCHES[cfg])) if rng.random() < 0.4 else None}
+
+
+def check_isa(ctx, g):
+    """other ISAs and syntaxes: the expression a patch's operand becomes - symbol, addend, attributes, position - after
+    a real rewrite, against what the patch text says"""
+    import logging
+
+    import gtirb
+    import gtirb_functions
+    from gtirb_test_helpers import add_code_block, add_data_block, add_symbol, add_text_section, create_test_module
+
+    import asm_engine as AE
+    import emodify
+    from gtirb_rewriting import Constraints, RewritingContext
+    from gtirb_rewriting.assembly import X86Syntax
+
+    logging.disable(logging.CRITICAL)
+    c = AE.CONFIGS[g["cfg"]]
+    ctx.case(g, sample=g if len(ctx.samples) < 4 else None, nontrivial=True)
+    ctx.count("isa:" + g["cfg"])
+    ir, m = create_test_module(getattr(gtirb.Module.FileFormat, c["ff"]), getattr(gtirb.Module.ISA, c["isa"]), binary_type=c["bt"])
+    _, bi = add_text_section(m, address=0x1000)
+    fam = AE.family(g["cfg"])
+    m.byte_order = gtirb.Module.ByteOrder.Big if fam == "mips" else gtirb.Module.ByteOrder.Little
+    nop = {"arm64": b"\x1f\x20\x03\xd5", "mips": b"\x00\x00\x00\x00", "ia32": b"\x90", "x64": b"\x90"}[fam]
+    ret = {"arm64": b"\xc0\x03\x5f\xd6", "mips": b"\x03\xe0\x00\x08\x00\x00\x00\x00", "ia32": b"\xc3", "x64": b"\xc3"}[fam]
+    blk = add_code_block(bi, nop * g["nops"] + ret)
+    func = add_code_block(bi, ret)
+    data = add_data_block(bi, b"\x00" * 32)
+    add_symbol(m, "func", func)
+    add_symbol(m, "table", data)
+    before = {(id(x), off) for x in m.byte_intervals for off in x.symbolic_expressions}
+    rc = RewritingContext(m, gtirb_functions.Function.build_functions(m))
+    picks = [g["patch"]] + ([g["second"]] if g.get("second") is not None else [])
+    cons = Constraints(x86_syntax=X86Syntax.INTEL) if c["syntax"] == "INTEL" else Constraints()
+    for k in picks:
+        rc.insert_at(blk, g["at"] * len(nop), emodify.make_patch(ISA_PATCHES[g["cfg"]][k][0], cons))
+    try:
+        rc.apply()
+    except Exception as e:  # noqa: BLE001
+        ctx.violation("C04:isa:raises", "%s: inserting %r raised %s: %s" % (g["cfg"], [ISA_PATCHES[g["cfg"]][k][0] for k in picks], type(e).__name__, str(e)[:100]), g)
+        return
+    got = []
+    for x in m.byte_intervals:
+        for off, e in sorted(x.symbolic_expressions.items()):
+            if isinstance(e, gtirb.SymAddrConst):
+                got.append([e.symbol.name, e.offset, sorted(a.name for a in e.attributes)])
+    want = sorted([ISA_PATCHES[g["cfg"]][k][1], ISA_PATCHES[g["cfg"]][k][2], sorted(ISA_PATCHES[g["cfg"]][k][3])] for k in picks)
+    if sorted(got) != want:
+        ctx.violation("C04:isa:patch-operand", "%s: after inserting %r the module's expressions are %s, the text says %s"
+                      % (g["cfg"], [ISA_PATCHES[g["cfg"]][k][0] for k in picks], sorted(got), want), g)
+
+
 def run(ctx):
     LE.run(ctx, "C04", 1500, 40000)
+    for _ in range(ctx.budget(120, 3000)):
+        check_isa(ctx, gen_isa(ctx.rng))
 
 
 def replay(ctx, payload):
-    LE.replay(ctx, "C04", payload)
+    case = payload.get("case", payload)
+    if isinstance(case, dict) and case.get("isa_case"):
+        check_isa(ctx, case)
+    else:
+        LE.replay(ctx, "C04", payload)
